@@ -1075,6 +1075,8 @@ add_data:
 
 fail:
   if (lg_xmit) {
+    /* Not linked into the session: the only reference is the one in pdu */
+    pdu->lg_xmit = NULL;
     coap_block_delete_lg_xmit(session, lg_xmit);
   } else if (release_func) {
     coap_lock_callback(session->context, release_func(session, app_ptr));
